@@ -4,6 +4,15 @@
    every output.  Errors are compared as "an error" only (never their text or kind). *)
 From V Require Export Base.Hex Index.TBState.
 
+(* short constructors used by the generated case files *)
+Definition hx := hex.
+Definition CF (maxn maxkey maxval flush maxbuf : N) (cleanup : bool) (cthld maxsnaps : N) : config :=
+  {| c_maxn := maxn; c_maxkey := maxkey; c_maxval := maxval; c_flush_thld := flush;
+     c_max_buffered := maxbuf; c_cleanup := cleanup; c_compaction_thld := cthld; c_max_snaps := maxsnaps |}.
+Definition RS (seek endk prefix : bytes) (incSeek incEnd desc : bool) (off : N) : rspec :=
+  {| rs_seek := seek; rs_end := endk; rs_prefix := prefix; rs_incl_seek := incSeek;
+     rs_incl_end := incEnd; rs_desc := desc; rs_offset := off |}.
+
 Inductive target := TCur | TSnap (id : N).
 
 Definition e4 : Type := (bytes * bytes * N * N)%type.   (* key value ts hc *)
